@@ -17,10 +17,21 @@
      cb_chain fuel codes e l s s'   the callbacks l of e were invoked in order, each once, none ending the loop        (C02)
      loop_start m rest s      the state in which the callback loop of the step that pops m starts                    (C02)
      stable_kind k            every kind of event but Process events and conditions (whose outcome the kernel rewrites) (C02)
-     stop / run_stop / run_split / plan_returned   stop points, what they do, plans, "every run(until=...) of the plan returned" *)
+     stop / run_stop / run_split / plan_returned   stop points, what they do, plans, "every run(until=...) of the plan returned"
+     free_run k / logs s      k times step() whatever the steps answer (the uninterrupted execution); the user-visible trace of s
+                              (the OLog / OProbe records, in order)
+     erase s / ghost_run      s without stop callbacks; a free run with inert sentinels inserted (Kernel/StopErase.v, StopSplit.v)
+     parametric_codes codes   every automaton of the table treats event ids as opaque tokens and does not call env.peek()
+                              (Kernel/StopRen.v); all programs compiled from scripts without peek are (C03_scripts_parametric)
+     selfsim s                s is related to itself by the simulation relation with the identity renaming: its processes are
+                              suspended parametric automata and every id in it has been allocated (holds initially, kept by
+                              module-level script code: Kernel/StopExamples.v)
+     clean / never_broken     the steps of the free run do not answer the explicit internal-error result RBroken
+     ren_obs f / smono f      renaming of the event ids in a trace record; f strictly increasing *)
 From Coq Require Import ZArith QArith List.
 From ONL Require Import Kernel.Model Kernel.Script Kernel.Keys Kernel.Inv Kernel.Order Kernel.Deliver Kernel.DeliverWf
-  Kernel.DeliverVal Kernel.StopFrame Kernel.StopInv Kernel.Stop Kernel.StopSpec Kernel.StopErase Kernel.StopSplit Kernel.StopExamples.
+  Kernel.DeliverVal Kernel.StopFrame Kernel.StopInv Kernel.Stop Kernel.StopSpec Kernel.StopErase Kernel.StopSplit Kernel.StopRen Kernel.StopSim
+  Kernel.StopSimCalls Kernel.StopSimStep Kernel.StopGhost Kernel.StopScript Kernel.StopExamples.
 Import ListNotations.
 
 (* ---- determinism ------------------------------------------------------------------------------------------------------- *)
@@ -180,3 +191,48 @@ Print Assumptions C03_run_is_free_run.
 Theorem C03_step_erase : forall fuel codes s, uinv s -> fst (step fuel codes (erase s)) = erase (fst (step fuel codes s)).
 Proof. exact step_erase. Qed.
 Print Assumptions C03_step_erase.
+
+(* split_transparent -- ALL stop points (numeric horizons also AT due instants, until-events, single steps, run()), every table
+   of parametric programs, every plan: the user-visible trace of the split run is the user-visible trace of the free run of K steps
+   from the same state, event ids renamed by a strictly increasing map (sentinels take event ids, so everything created after a
+   numeric stop is shifted): no record of any process is lost, duplicated or reordered by a stop.  Hypotheses: the initial state is
+   well-formed (selfsim, good, uinv: every state reached from an initial state by module-level script code is) and carries no stale
+   stop callback; the free run does not answer RBroken (the explicit internal-error result the design excludes). *)
+Theorem C03_split_transparent : forall codes fuel s0 plan, parametric_codes codes ->
+  selfsim s0 -> good s0 -> uinv s0 -> no_stop s0 ->
+  exists K, clean fuel codes K s0 ->
+    exists f, smono f /\ logs (fst (run_split fuel codes plan s0)) = map (ren_obs f) (logs (free_run K fuel codes s0)) /\
+              (agenda (fst (run_split fuel codes plan s0)) = [] -> agenda (free_run K fuel codes s0) = []).
+Proof. exact split_transparent. Qed.
+Print Assumptions C03_split_transparent.
+
+(* ... and when the uninterrupted run() returned normally and the split run has emptied the agenda as well: the split run shows
+   exactly the (renamed) trace of run() *)
+Theorem C03_split_transparent_run : forall codes fuel s0 plan U, parametric_codes codes ->
+  selfsim s0 -> good s0 -> uinv s0 -> no_stop s0 -> never_broken fuel codes s0 ->
+  run fuel codes UNone s0 = (U, ROk) -> agenda (fst (run_split fuel codes plan s0)) = [] ->
+  exists f, smono f /\ logs (fst (run_split fuel codes plan s0)) = map (ren_obs f) (logs U).
+Proof. exact split_transparent_run. Qed.
+Print Assumptions C03_split_transparent_run.
+
+(* inert sentinels are invisible to parametric programs: the layer between the two theorems above and C03_split_transparent_partial *)
+Theorem C03_ghost_transparent : forall codes fuel, parametric_codes codes ->
+  forall items f g a b, bsim f g a b ->
+    exists K, clean fuel codes K a -> exists f' g', bsim f' g' (free_run K fuel codes a) (ghost_run fuel codes items b).
+Proof. exact ghost_transparent. Qed.
+Print Assumptions C03_ghost_transparent.
+
+(* the class of programs is not small: every script without env.peek() compiles to a parametric program -- all generated
+   families of the correspondence check *)
+Theorem C03_scripts_parametric : forall scripts, forallb nopeek scripts = true -> parametric_codes (map compile scripts).
+Proof. exact compile_parametric_codes. Qed.
+Print Assumptions C03_scripts_parametric.
+
+Theorem C03_selfsim_init : forall t0, selfsim (init_state t0).
+Proof. exact selfsim_init. Qed.
+Print Assumptions C03_selfsim_init.
+
+Theorem C03_selfsim_module_code : forall codes l s,
+  parametric_codes codes -> nopeek l = true -> selfsim s -> selfsim (fst (exec_top codes (Script.exec l []) s)).
+Proof. exact selfsim_exec_top. Qed.
+Print Assumptions C03_selfsim_module_code.
